@@ -1410,6 +1410,7 @@ def direct_part(ctx, harness, counters, hist):
     directories or at nothing, queued in different orders"""
     r = ctx.rng
     dp = {"ops": 0, "nesting": 0, "range": 0, "link_sets": 0, "flat_sets": 0, "err": 0, "orders_per_set": 3}
+    hist["direct"] = dp
 
     def ent(kind, path, mode, uid=0, gid=0, mtime=0, rdev=0, extra=None):
         return [kind, tok(path), str(mode), str(uid), str(gid), str(mtime), str(rdev), otok(extra)]
@@ -1535,6 +1536,7 @@ def deep_part(ctx, harness, counters, hist):
     if limit is None:
         raise vlib.CheckFailure("maxDirNesting missing from the generated constants")
     dp = {"limit": limit, "cases": 0, "err": 0, "ok": 0}
+    hist["deep"] = dp
     lines, mlines = [], []
     roots = []
     for ci, depth in enumerate((limit, limit + 1) if ctx.quick() else (limit - 1, limit, limit + 1)):
